@@ -177,53 +177,53 @@ def _index_maps(prog, rep):
     orig = tv.node.args.args[1].arg
     a = {src(n.targets[0]): n.value for n in walk_local(tv.node) if isinstance(n, ast.Assign)}
     ok = src(a.get("instance.rows")) == f"{orig}.cols" and src(a.get("instance.cols")) == f"{orig}.rows"
-    rep.ob("R11.3", "MatrixVariable._transpose_view", ok, "rows/cols are swapped" if ok else "the transpose view does not swap rows and cols", loc=tv.loc, detail="shape")
+    rep.pin('index maps of views', "R11.3", "MatrixVariable._transpose_view", ok, "rows/cols are swapped" if ok else "the transpose view does not swap rows and cols", loc=tv.loc, detail="shape")
     nc = _nested_comp(a.get("instance._variables"))
     ok = nc is not None and nc[1] == f"range({orig}.cols)" and nc[3] == f"range({orig}.rows)" and src(nc[4]) == f"{orig}._variables[{nc[2]}][{nc[0]}]"
-    rep.ob("R11.3", "MatrixVariable._transpose_view", ok, "view[i][j] = original[j][i], i over original cols, j over original rows" if ok else f"the transposed variable grid is `{src(a.get('instance._variables'))[:80]}`, not [[orig[j][i] for j in range(orig.rows)] for i in range(orig.cols)]", loc=tv.loc, detail="index-map")
+    rep.pin('index maps of views', "R11.3", "MatrixVariable._transpose_view", ok, "view[i][j] = original[j][i], i over original cols, j over original rows" if ok else f"the transposed variable grid is `{src(a.get('instance._variables'))[:80]}`, not [[orig[j][i] for j in range(orig.rows)] for i in range(orig.cols)]", loc=tv.loc, detail="index-map")
     ME = prog.cls("MatrixExpression").methods.get("T")
     nc = None
     for n in walk_local(ME.node):
         if isinstance(n, ast.Assign):
             nc = _nested_comp(n.value) or nc
     ok = nc is not None and nc[1] == "range(self.cols)" and nc[3] == "range(self.rows)" and src(nc[4]) == f"self._expressions[{nc[2]}][{nc[0]}]"
-    rep.ob("R11.3", "MatrixExpression.T", ok, "T[i][j] = self[j][i]" if ok else "MatrixExpression.T does not build [[self[j][i] for j in rows] for i in cols]", loc=ME.loc, detail="index-map")
+    rep.pin('index maps of views', "R11.3", "MatrixExpression.T", ok, "T[i][j] = self[j][i]" if ok else "MatrixExpression.T does not build [[self[j][i] for j in rows] for i in cols]", loc=ME.loc, detail="index-map")
     init = MV.methods["__init__"]
     s = src(init.node)
     ok = "if symmetric and j < i:" in s and "row.append(self._variables[j][i])" in s and "for i in range(rows):" in s and "for j in range(cols):" in s
-    rep.ob("R11.3", "MatrixVariable.__init__", ok, "symmetric: A[i][j] for j < i reuses the Variable object A[j][i]" if ok else "the symmetric construction does not reuse the variable at [j][i] for j < i", loc=init.loc, detail="symmetric-sharing")
+    rep.pin('index maps of views', "R11.3", "MatrixVariable.__init__", ok, "symmetric: A[i][j] for j < i reuses the Variable object A[j][i]" if ok else "the symmetric construction does not reuse the variable at [j][i] for j < i", loc=init.loc, detail="symmetric-sharing")
     named = "Variable(f'{name}[{i},{j}]'" in s
-    rep.ob("R11.3", "MatrixVariable.__init__", named, "element [i][j] is named name[i,j]" if named else "matrix elements are not named name[i,j] at position [i][j]", loc=init.loc, detail="element-names")
+    rep.pin('index maps of views', "R11.3", "MatrixVariable.__init__", named, "element [i][j] is named name[i,j]" if named else "matrix elements are not named name[i,j] at position [i][j]", loc=init.loc, detail="element-names")
     for mname in ("diagonal", "trace"):
         m = MV.methods[mname]
         t = src(m.node)
         ok = "self._variables[i][i]" in t and "self.rows != self.cols" in t
-        rep.ob("R11.3", f"MatrixVariable.{mname}", ok, "uses [i][i] of a square matrix" if ok else f"{mname} does not use the [i][i] entries of a square matrix", loc=m.loc, detail="diagonal")
+        rep.pin('index maps of views', "R11.3", f"MatrixVariable.{mname}", ok, "uses [i][i] of a square matrix" if ok else f"{mname} does not use the [i][i] entries of a square matrix", loc=m.loc, detail="diagonal")
     gi = MV.methods["__getitem__"]
     t = src(gi.node)
     ok = "row_vars = self._variables[row_key][col_key]" in t and "col_vars = [row[col_key] for row in self._variables[row_key]]" in t and "return self._variables[row_key][col_key]" in t and "sliced_vars = [row[col_key] for row in sliced_rows]" in t
-    rep.ob("R11.3", "MatrixVariable.__getitem__", ok, "A[i, j] / A[i, :] / A[:, j] / A[a:b, c:d] index rows first, then columns" if ok else "matrix indexing does not index rows first and columns second for all four cases", loc=gi.loc, detail="row/column")
+    rep.pin('index maps of views', "R11.3", "MatrixVariable.__getitem__", ok, "A[i, j] / A[i, :] / A[:, j] / A[a:b, c:d] index rows first, then columns" if ok else "matrix indexing does not index rows first and columns second for all four cases", loc=gi.loc, detail="row/column")
     mvp = prog.cls("MatrixVectorProduct").methods["__init__"]
     t = src(mvp.node)
     ok = "LinearCombination(matrix[i, :], vector) for i in range(self.size)" in t and "self.size = matrix.shape[0]" in t
-    rep.ob("R11.3", "MatrixVectorProduct.__init__", ok, "element i is row i of the matrix dotted with the vector" if ok else "element i of A @ x is not LinearCombination(A[i, :], x)", loc=mvp.loc, detail="row-i")
+    rep.pin('index maps of views', "R11.3", "MatrixVectorProduct.__init__", ok, "element i is row i of the matrix dotted with the vector" if ok else "element i of A @ x is not LinearCombination(A[i, :], x)", loc=mvp.loc, detail="row-i")
     mm = MV.methods["_matmul_vector"]
     t = src(mm.node)
     ok = "BinaryOp(self._variables[i][j], vec_elem, '*')" in t and "for i in range(self.rows):" in t and "for j in range(self.cols):" in t and "vector[j]" in t and "BinaryOp(row_expr, term, '+')" in t
-    rep.ob("R11.3", "MatrixVariable._matmul_vector", ok, "row i = sum_j A[i][j] * v[j]" if ok else "(A @ v)[i] is not sum_j A[i][j] * v[j]", loc=mm.loc, detail="row-i")
+    rep.pin('index maps of views', "R11.3", "MatrixVariable._matmul_vector", ok, "row i = sum_j A[i][j] * v[j]" if ok else "(A @ v)[i] is not sum_j A[i][j] * v[j]", loc=mm.loc, detail="row-i")
     vv = prog.cls("VectorVariable")
     t = src(vv.methods["__init__"].node)
     ok = "Variable(f'{name}[{i}]', lb=lb, ub=ub, domain=domain) for i in range(size)" in t
-    rep.ob("R11.3", "VectorVariable.__init__", ok, "element i is named name[i]" if ok else "vector elements are not created as name[i] for i in range(size)", loc=vv.loc, detail="element-names")
+    rep.pin('index maps of views', "R11.3", "VectorVariable.__init__", ok, "element i is named name[i]" if ok else "vector elements are not created as name[i] for i in range(size)", loc=vv.loc, detail="element-names")
     gi = vv.methods["__getitem__"]
     t = src(gi.node)
     ok = "return self._variables[key]" in t and "sliced_vars = self._variables[key]" in t and "key = self.size + key" in t
-    rep.ob("R11.3", "VectorVariable.__getitem__", ok, "x[i] / x[a:b:c] are Python list indexing of the element list (negative indices wrapped)" if ok else "vector indexing is not plain list indexing of the element list", loc=gi.loc, detail="slice")
+    rep.pin('index maps of views', "R11.3", "VectorVariable.__getitem__", ok, "x[i] / x[a:b:c] are Python list indexing of the element list (negative indices wrapped)" if ok else "vector indexing is not plain list indexing of the element list", loc=gi.loc, detail="slice")
     for cname in ("MatrixSum", "FrobeniusNorm"):
         ev = prog.cls(cname).methods["evaluate"]
         t = src(ev.node)
         ok = "range(self.matrix.rows)" in t and "range(self.matrix.cols)" in t
-        rep.ob("R11.3", f"{cname}.evaluate", ok, "ranges over all rows x cols" if ok else f"{cname}.evaluate does not range over the full rows x cols grid", loc=ev.loc, detail="full-grid")
+        rep.pin('index maps of views', "R11.3", f"{cname}.evaluate", ok, "ranges over all rows x cols" if ok else f"{cname}.evaluate does not range over the full rows x cols grid", loc=ev.loc, detail="full-grid")
 
 
 # ------------------------------------------------------------------------------------------------ R11.4
@@ -249,7 +249,7 @@ def _identity(prog, rep):
     dot = prog.cls("VectorVariable").methods["dot"]
     s = src(dot.node)
     ok = "other.vector is self" in s
-    rep.ob("R11.4", "VectorVariable.dot", ok, "x.dot(A @ x) -> QuadraticForm is taken for the identical vector object" if ok else "the quadratic-form rewrite is not guarded by object identity", loc=dot.loc, detail="rewrite-identity")
+    rep.pin("index maps of views", "R11.4", "VectorVariable.dot", ok, "x.dot(A @ x) -> QuadraticForm is taken for the identical vector object" if ok else "the quadratic-form rewrite is not guarded by object identity", loc=dot.loc, detail="rewrite-identity")
     # view constructors: copy every slot, share Variable objects
     for cname in ("VectorVariable", "MatrixVariable"):
         ci = prog.cls(cname)
